@@ -81,6 +81,7 @@ type jobResult struct {
 	ByKind      map[string]int    `json:"paths_by_outcome"`
 	Asserts     int               `json:"assertions_discharged"`
 	AssertsSym  int               `json:"assertions_with_symbolic_condition"`
+	Nontrivial  int               `json:"ok_paths_nontrivial"`
 	Decisions   int               `json:"decisions"`
 	Steps       int               `json:"ssa_instructions_executed"`
 	Queries     int               `json:"solver_queries"`
@@ -433,6 +434,7 @@ func runSymgoJob(prog *symgo.Program, inst instance, tier string, workers int, s
 	jr.ByKind = rep.ByKind
 	jr.Asserts = rep.Asserts
 	jr.AssertsSym = rep.AssertsSym
+	jr.Nontrivial = rep.NontrivialOK
 	jr.Decisions = rep.Decisions
 	jr.Steps = rep.Steps
 	jr.Queries = rep.Solver.Queries
@@ -692,6 +694,7 @@ func writeEvidence(path, prop, tier string, seed int, spec *Spec, results []*job
 	if level == "" {
 		level = "model_checking"
 	}
+	var nontrivial int
 	var paths, okPaths, decisions, asserts, queries, sat, unsat, unknown, replays, obligations, tsStates, tsTrans int
 	var solverS float64
 	funcs := map[string]int{}
@@ -701,6 +704,11 @@ func writeEvidence(path, prop, tier string, seed int, spec *Spec, results []*job
 	for _, r := range results {
 		paths += r.Paths
 		okPaths += r.ByKind["ok"]
+		if r.Engine == "tsgen" {
+			nontrivial += r.ByKind["ok"]
+		} else {
+			nontrivial += r.Nontrivial
+		}
 		decisions += r.Decisions
 		asserts += r.Asserts
 		queries += r.Queries
@@ -761,7 +769,7 @@ func writeEvidence(path, prop, tier string, seed int, spec *Spec, results []*job
 	if transitions < 1 {
 		transitions = 1
 	}
-	distinct := okPaths
+	distinct := nontrivial
 	ev := map[string]any{
 		"property_id": prop,
 		"tier":        tier,
@@ -777,7 +785,7 @@ func writeEvidence(path, prop, tier string, seed int, spec *Spec, results []*job
 			"traces_validated_against_impl": replays,
 			"evaluations":                   maxInt(paths, 1),
 			"distinct_nontrivial":           distinct,
-			"rule":                          "one evaluation = one explored path of a harness (a conjunction of branch decisions over symbolic inputs, decided feasible by the solver, or one BMC cube for tsgen jobs); distinct_nontrivial counts the distinct feasible paths that ran to the end of the harness with every assertion on them discharged (unsat for the negation) — infeasible, truncated and unsupported paths are not counted",
+			"rule":                          "one evaluation = one explored path of a harness (a conjunction of branch decisions over symbolic inputs, decided feasible by the solver; paths have pairwise different decision trails, hence disjoint path conditions) or one BMC query of a tsgen job; distinct_nontrivial counts the feasible paths that ran to the end of the harness with every assertion discharged, that executed at least one assertion, AND on which the solver decided at least one branch condition or assertion condition over symbolic inputs (so the path stands for a non-empty set of inputs selected by a non-trivial path condition), plus tsgen queries answered unsat — infeasible, truncated, unsupported paths, assertion-free paths and fully concrete paths are not counted",
 			"samples":                       samples,
 			"exhaustive":                    len(inconclusive) == 0,
 			"obligations":                   obligations,
